@@ -228,7 +228,13 @@ func unmarshalChannel(s interface{}) (Channel, error) {
 			if err != nil {
 				return nil, errors.Wrapf(err, "Could not parse '%s' as a valid address!", k)
 			}
+		} else {
+			return nil, errors.Errorf("Channel 'address' is not a string: %+v", val)
 		}
+	}
+
+	if address == nil {
+		return nil, errors.Errorf("Missing channel address: %+v", stuff)
 	}
 
 	var channel Channel
